@@ -291,23 +291,34 @@ Definition vox_range (g : vgrid) (c : Z) (p : vec) (vyi vzi y z : Z) : vrange :=
    findLowerBound/findUpperBound are binary searches, so the ranges are these sets:
      range 0: minx <= x <= maxx;  if needPeriodic and not (some x < minx and some x > maxx):
      range 1: (some x < minx) ? { x < minx, x <= maxx - ax } : { x > maxx, x >= minx + ax }        *)
-Definition in_ranges (g : vgrid) (px : Z) (r : vrange) (bin : list entry) (xj : Z) : bool :=
+(* rangeStart[0] > 0 (some x < minx) and rangeEnd[0] < binSize (some x > maxx): computed once per bin *)
+Definition has_below (g : vgrid) (px : Z) (r : vrange) (bin : list entry) : bool :=
+  existsb (fun e => negb (ge_minx (gS g * gS g) px r (vx (snd e)))) bin.
+Definition has_above (g : vgrid) (px : Z) (r : vrange) (bin : list entry) : bool :=
+  existsb (fun e => negb (le_maxx (gS g * gS g) px r (vx (snd e)))) bin.
+Definition in_ranges (g : vgrid) (px : Z) (r : vrange) (below above : bool) (xj : Z) : bool :=
   let S2 := gS g * gS g in
   let ax := b_ax (g_box g) in
   let ge x := ge_minx S2 px r x in
   let le x := le_maxx S2 px r x in
-  let below := existsb (fun e => negb (ge (vx (snd e)))) bin in
-  let above := existsb (fun e => negb (le (vx (snd e)))) bin in
-  (ge xj && le xj) ||
-  (r_needp r && negb (below && above) &&
-   (if below then negb (ge xj) && le (xj + ax) else negb (le xj) && ge (xj - ax))).
+  if ge xj && le xj then true
+  else if r_needp r then
+    (if below then (if above then false else negb (ge xj) && le (xj + ax))
+     else negb (le xj) && ge (xj - ax))
+  else false.
 
-(* "if (index >= atomIndex) continue", then the final distance test (raw, or wrapped when needPeriodic) *)
-Definition final_ok (g : vgrid) (c : Z) (i : nat) (p : vec) (r : vrange) (e : entry) : bool :=
-  Nat.ltb (fst e) i &&
-  (let d := vsub (snd e) p in
-   let d' := if r_needp r then (if g_tric g then wrap_seq fl_half (g_box g) d else wrap_diag (g_box g) d) else d in
-   norm2 d' <=? c * c).
+(* the final distance test: raw displacement, or wrapped when needPeriodic *)
+Definition dist_ok (g : vgrid) (c : Z) (p : vec) (r : vrange) (q : vec) : bool :=
+  let d := vsub q p in
+  let d' := if r_needp r then (if g_tric g then wrap_seq fl_half (g_box g) d else wrap_diag (g_box g) d) else d in
+  norm2 d' <=? c * c.
+
+(* one bin entry is reported iff it lies in one of the index ranges, "if (index >= atomIndex) continue",
+   and it passes the distance test.  (Written with `if` so that evaluation is lazy; it is the conjunction.) *)
+Definition cand_ok (g : vgrid) (c : Z) (i : nat) (p : vec) (r : vrange) (below above : bool) (e : entry) : bool :=
+  if in_ranges g (vx p) r below above (vx (snd e)) then
+    if Nat.ltb (fst e) i then dist_ok g c p r (snd e) else false
+  else false.
 
 (* Voxels::getNeighbors for atom i at p; [bins wy wz] = the atoms inserted into voxel (wy,wz) *)
 Definition half_list (g : vgrid) (c : Z) (bins : Z -> Z -> list entry) (i : nat) (p : vec) : list nat :=
@@ -320,7 +331,9 @@ Definition half_list (g : vgrid) (c : Z) (bins : Z -> Z -> list entry) (i : nat)
         let wy := if g_per g then wrap1 (g_ny g) y else y in
         let wz := if g_per g then wrap1 (g_nz g) z else z in
         let bin := bins wy wz in
-        map fst (filter (fun e => in_ranges g (vx p) r bin (vx (snd e)) && final_ok g c i p r e) bin))
+        let below := has_below g (vx p) r bin in
+        let above := has_above g (vx p) r bin in
+        map fst (filter (cand_ok g c i p r below above) bin))
       (ywindow g c (fst v) z))
     (zwindow g c (snd v)).
 
